@@ -492,16 +492,27 @@ func (g *g5) posting() string {
 	if g.p(80) {
 		sb.WriteString(g.gap())
 		sb.WriteString(g.amount())
+		if g.p(4) {
+			// hledger syntax this project does not read (yet): a lot price, a cost in parentheses.
+			// Whatever the parser makes of it, formatting must not lose it.
+			sb.WriteString(g.ws() + g.of("{", "{=", "{{") + g.amount() + g.of("}", "}", "}}"))
+			g.c.Count("post.foreign.lot")
+		}
 		if g.p(15) {
-			sb.WriteString(g.ws() + g.of("@", "@@") + g.ws() + g.amount())
+			op := g.of("@", "@@")
+			if g.p(8) {
+				op = "(" + op + ")"
+				g.c.Count("post.foreign.cost")
+			}
+			sb.WriteString(g.ws() + op + g.ws() + g.amount())
 			g.c.Count("post.cost")
 		}
 		if g.p(15) {
-			sb.WriteString(g.ws() + g.of("=", "==") + g.ws() + g.amount())
+			sb.WriteString(g.ws() + g.assertOp() + g.ws() + g.amount())
 			g.c.Count("post.assert")
 		}
 	} else if g.p(20) {
-		sb.WriteString(g.gap() + g.of("=", "==") + g.ws() + g.amount())
+		sb.WriteString(g.gap() + g.assertOp() + g.ws() + g.amount())
 		g.c.Count("post.assertonly")
 	}
 	if g.p(25) {
@@ -516,6 +527,17 @@ func (g *g5) posting() string {
 		g.c.Count("post.trailingblank")
 	}
 	return sb.String()
+}
+
+// assertOp: `=` and `==`, and now and then hledger's subaccount-inclusive forms `=*` / `==*`,
+// which this project does not read (yet): if a line with one of them is understood at all, the
+// formatted line must still say the same.
+func (g *g5) assertOp() string {
+	if g.p(7) {
+		g.c.Count("post.foreign.assert")
+		return g.of("=*", "==*")
+	}
+	return g.of("=", "==")
 }
 
 var descrPool = []string{"grocery store", "Salary", "Rent | march", "payee|note", "Кафе", "😀 party", "x", "Gas & Oil", "café «Zoé»"}
